@@ -5,6 +5,7 @@ package sched
 
 import (
 	"fmt"
+	"time"
 
 	"github.com/elk-language/elk/verifrt"
 )
@@ -13,6 +14,7 @@ type Config struct {
 	Bound    int  // preemption bound; < 0 = unbounded
 	Keys     bool // prune with happens-before state keys (sound for data-race-free scenarios)
 	MaxExecs int  // cap on executions (0 = none); hitting it makes the result non-exhaustive
+	Deadline time.Time // wall-clock budget (zero = none); hitting it makes the result non-exhaustive
 	Opts     verifrt.Options
 }
 
@@ -41,6 +43,12 @@ func Explore(cfg Config, run Scenario, visit func(e *verifrt.Exec, outcome strin
 	explore = func(prefix []int, cost int) {
 		if cfg.MaxExecs > 0 && st.Execs >= cfg.MaxExecs {
 			st.Capped = true
+			return
+		}
+		if !cfg.Deadline.IsZero() && st.Execs%64 == 0 && time.Now().After(cfg.Deadline) {
+			st.Capped = true
+		}
+		if st.Capped {
 			return
 		}
 		x, outcome := run(prefix, cfg.Opts)
